@@ -772,7 +772,11 @@ pub fn run_c07(cfg: &Cfg) {
     let ncases = if thorough { 2500 } else { 220 };
     for ci in 0..ncases {
         let n = match rng.below(4) { 0 => 3, 1 => 4, _ => rng.range(3, if thorough { 20 } else { 10 }) as usize };
-        let (axv, class) = gen_spline_axis(&mut rng, n);
+        let (mut axv, class) = gen_spline_axis(&mut rng, n);
+        // one axis in four starts exactly at 0: then x - x0 is exact for every x and the f64 remainder is exact,
+        // so even astronomically large finite queries must land on the exactly wrapped position
+        let zero_based = rng.chance(1, 4);
+        if zero_based { let a0 = axv[0]; for v in axv.iter_mut() { *v -= a0; } }
         let trail = gen_trail(&mut rng);
         let lanes: usize = trail.iter().product();
         let mut rows = gen_rows(&mut rng, n, lanes, true);
@@ -805,6 +809,14 @@ pub fn run_c07(cfg: &Cfg) {
                 }
             }
         }
+        let first_huge = queries.len();
+        if zero_based {
+            for q in [1.0e17, -1.0e17, 3.0e18, -7.0e19, 1.2345e25, -9.87e40, 1.0e100, -2.5e200, 1.0e300, f64::MAX, f64::MIN] {
+                queries.push(q);
+                img_of.push((0, 0));
+            }
+            rep.count("zero-based-axis:huge-queries");
+        }
         let sc = Scen1 { strat: Strat1::Spline(Bc::Periodic), ext: true, ax: Some(axv.clone()), rows, trail, queries };
         rep.count(&format!("axis:{}", class));
         rep.count(&format!("n:{}", n.min(8)));
@@ -816,7 +828,7 @@ pub fn run_c07(cfg: &Cfg) {
             continue;
         }
         for (qi, &(bi, k)) in img_of.iter().enumerate() {
-            if qi < nb { continue; }
+            if qi < nb || qi >= first_huge { continue; }
             rep.count("images");
             // the image of the right end maps to the left end (equal values)
             let want = if bi == 1 { &rx.1[0] } else { &rx.1[bi] };
@@ -848,7 +860,9 @@ pub fn run_c07(cfg: &Cfg) {
                     // |S'| <= ~ 6 max|y| / hmin (loose); argument error <= eps*|x|
                     let x = sc.queries[qi];
                     let lip = Val::from_f64(64.0 / hmin);
-                    let b = Val::from_f64(f64::EPSILON).mul(&Val::from_f64(x.abs().max(p))).mul(&lip).mul(&scale)
+                    // (huge queries on a zero-based axis: the wrapped argument is exact, only P-sized rounding remains)
+                    let xmag = if qi >= first_huge { p } else { x.abs().max(p) };
+                    let b = Val::from_f64(f64::EPSILON).mul(&Val::from_f64(xmag)).mul(&lip).mul(&scale)
                         .add(&Val::from_f64((2.0f64).powi(-30)).mul(&scale));
                     for l in 0..w.len() {
                         if !within(&v[l], &w[l], &b) {
@@ -1080,6 +1094,12 @@ pub fn run_c15(cfg: &Cfg) {
             rep.count("shift");
             if r3 != base {
                 rep.fail("shifting the axis and the queries by the same amount changes the result (exact run)", obj(vec![("base", sc.to_json()), ("shift", s(format!("{:?}", sh)))]));
+            }
+            // only differences of axis values and queries enter: for an exactly representable shift the f64
+            // results are bit-identical (Periodic extrapolation adds x0 back after the wrap and is excluded above)
+            rep.count("bitwise:shift");
+            if !tiny && !bits_eq(&v3.run::<f64>(), &basef) {
+                rep.fail("shifting axis and queries by an exactly representable amount is not bit-for-bit (f64)", obj(vec![("base", sc.to_json()), ("shift", s(format!("{:?}", sh)))]));
             }
         }
         // (4) additivity: results for data1 + data2 = sum of results (boundary values added)
